@@ -30,6 +30,7 @@ type Env struct {
 	freeVars []freeBinding
 	depth    int
 	nq       int
+	acqMode  bool
 }
 
 type cevalError struct{ msg string }
@@ -115,6 +116,13 @@ func (env *Env) eval(st *State, e CExpr) Value {
 	case COld:
 		ne := *env
 		ne.inOld = true
+		if e.Label == "acq" {
+			if st.acq == nil {
+				env.fail("acq() used but no lock was acquired on this path")
+			}
+			ne.old = st.acq
+			ne.acqMode = true
+		}
 		return ne.eval(st, e.X)
 	case CIte:
 		c := env.eval(st, e.C).L[0]
@@ -346,12 +354,12 @@ func (env *Env) ident(st *State, name string) Value {
 		}
 	}
 	if fr := env.fnFrame; fr != nil {
-		if env.inOld || env.atReturn {
+		if (env.inOld && !env.acqMode) || env.atReturn {
 			if val, ok := fr.entryParams[name]; ok {
 				return val
 			}
 		}
-		if !env.inOld {
+		if !env.inOld || env.acqMode {
 			base, ord := name, 0
 			if i := strings.Index(name, "#"); i > 0 {
 				base = name[:i]
@@ -377,7 +385,7 @@ func (env *Env) ident(st *State, name string) Value {
 		}
 		for _, p := range fr.fn.Params {
 			if p.Name() == name {
-				if val, ok := fr.entryParams[name]; ok && (env.inOld || env.atReturn) {
+				if val, ok := fr.entryParams[name]; ok && ((env.inOld && !env.acqMode) || env.atReturn) {
 					return val
 				}
 				return fr.regs[p]
@@ -870,7 +878,7 @@ func (env *Env) call(st *State, e CCall) Value {
 		if len(e.Args) != len(p.Params) {
 			env.fail("%s expects %d arguments", p.Name, len(p.Params))
 		}
-		ne := &Env{v: v, vars: map[string]Value{}, pkgPath: p.PkgPath, old: env.old, inOld: env.inOld, depth: env.depth + 1}
+		ne := &Env{v: v, vars: map[string]Value{}, pkgPath: p.PkgPath, old: env.old, inOld: env.inOld, depth: env.depth + 1, nq: env.nq, acqMode: env.acqMode}
 		for i, pa := range p.Params {
 			val := arg(i)
 			if val.T == nilType || val.T == mathInt {
